@@ -64,6 +64,51 @@ def checkOrder (role : Role) (preferSrflx : Bool) (locals remotes : List PCand) 
   let ps := sortByPriority role (formPairs role locals remotes)
   if preferSrflx then sortPreferSrflx role ps else ps
 
+/-- the preamble of `perform_connectivity_checks_async`: nothing happens unless the state is Checking and no pair is
+selected yet and there are remote candidates; a controlling agent WITHOUT any local candidate synthesizes one
+active-TCP local (address 0.0.0.0:0, modelled id `synthId`) per remote passive-TCP candidate; still no local →
+nothing. `none` = the function returns before the list is formed. -/
+def synthId : Nat := 99999
+def synthesized (remotes : List PCand) : List PCand :=
+  (remotes.filter (fun r => r.tcp && r.passive)).map (fun r =>
+    ⟨synthId, priorityForTcp .host r.component .active, true, r.component, false, true, false, true, false⟩)
+
+def checkPass (checking hasSelected : Bool) (role : Role) (preferSrflx : Bool) (locals remotes : List PCand) : Option (List PPair) :=
+  if !checking || hasSelected || remotes.isEmpty then none
+  else
+    let locals' := if locals.isEmpty && role = .controlling then synthesized remotes else locals
+    if locals'.isEmpty then none else some (checkOrder role preferSrflx locals' remotes)
+
+/-! ### what is done with the checks that succeeded (the part that decides which pair is USED) -/
+
+/-- `successful_pairs.sort_by_key(|p| Reverse(p.priority(role)))` followed by `[0]` / `.first()`: the stable
+descending sort of the pairs in arrival order, head -/
+def best (role : Role) (ps : List PPair) : Option PPair := (sortByPriority role ps).head?
+
+/-- result of one pass: selected pair, `nomination_complete`, whether the state is set to Connected (`true`)
+or Failed (`false`) -/
+structure Outcome where
+  selected : PPair
+  nominationComplete : Option Bool
+  connected : Bool
+deriving DecidableEq, Repr
+
+/-- the tail of `perform_connectivity_checks_async`. `succ` = checks that succeeded (arrival order, no
+duplicates), `noms` = nominations that succeeded (controlling agent only), `peerNominated` = the controlled
+agent already has `nomination_complete`. `none` = nothing is changed. -/
+def conclude (role : Role) (succ noms : List PPair) (peerNominated : Bool) : Option Outcome :=
+  match best role succ with
+  | none => none                                        -- `if successful_pairs.is_empty() { return; }`
+  | some top =>
+    match role with
+    | .controlling =>
+      match best role noms with
+      | some f => some ⟨f, some true, true⟩
+      | none => some ⟨top, some false, false⟩            -- best-effort pair, nomination failed, Failed
+    | .controlled =>
+      if peerNominated then none
+      else some ⟨top, if top.1.tcp then some true else none, true⟩
+
 /-! ### messages the agent composes -/
 
 def software : Attr := .software [114, 117, 115, 116, 114, 116, 99]   -- "rustrtc"
